@@ -411,6 +411,7 @@ static bool cut_over_rewritten(const RCP<const Basic> &e)
         case SYMENGINE_ATAN: case SYMENGINE_ACOT: case SYMENGINE_ATAN2: case SYMENGINE_ASINH: case SYMENGINE_ACSCH:
         case SYMENGINE_ACOSH: case SYMENGINE_ATANH: case SYMENGINE_ACOTH: case SYMENGINE_ASECH:
         case SYMENGINE_LAMBERTW: case SYMENGINE_SIGN: case SYMENGINE_FLOOR: case SYMENGINE_CEILING:
+        case SYMENGINE_MAX: case SYMENGINE_MIN: // no order on complex values: the choice flips with rounding
             cut = true;
             break;
         default:
